@@ -417,6 +417,22 @@ func (t *tr2) record(n *types.Named) *recInfo {
 			}
 		}
 		r.fields = append(r.fields, recField{goName: f.Name(), coq: r.name + "_" + f.Name(), ty: f.Type(), ok: ok})
+		if ok { // the record's module depends on the module that declares the field's type
+			dm := ""
+			if nn, _, isS := namedStruct(f.Type()); isS {
+				dm = t.g.mods[nn.Obj().Pkg().Path()]
+			} else if nn, isP := ptrStruct(f.Type()); isP {
+				dm = t.g.mods[nn.Obj().Pkg().Path()]
+			} else if si := sumOf(f.Type()); si != nil {
+				dm = t.g.mods[modPath+"/"+si.pkg]
+			}
+			if dm != "" && dm != mod {
+				if t.g.deps[mod] == nil {
+					t.g.deps[mod] = map[string]bool{}
+				}
+				t.g.deps[mod][dm] = true
+			}
+		}
 	}
 	t.g.recOf[mod] = append(t.g.recOf[mod], r)
 	return r
